@@ -154,6 +154,41 @@ def run(ctx):
                                     seen.add(t); nxt.append(t)
                 frontier = nxt
             states_seen += len(seen)
+    # whole call histories on ONE election object (the exploration above sets the counters of a fresh object for every
+    # transition, so it cannot see state kept anywhere else): every sequence of vectors up to a length beyond wait_time + 2,
+    # and random long histories with sticky member states (a member that keeps reporting drift call after call)
+    def follow(sens, w, seq, tag):
+        e = el.ConfirmedElection(sens, w)
+        st = None
+        for t, v in enumerate(seq):
+            out = impl_call(e, v)
+            cs = e.wait_period_counters
+            spec = confirmed_spec(sens, w, st, v)
+            if (out, None if cs is None else tuple(int(x) for x in cs)) != spec:
+                ctx.fail(election="ConfirmedElection", sensitivity=sens, wait_time=w, calls=[list(x) for x in seq[:t + 1]],
+                         impl=[out, None if cs is None else [int(x) for x in cs]], spec=[spec[0], list(spec[1])],
+                         what="verdict / counters differ from the documented voter automaton in call %d of a history on one election object" % (t + 1))
+                return
+            st = spec[1]
+        ctx.count(tag)
+    for n, L in ((1, 6), (2, 4 if ctx.quick else 5)):
+        vecs = list(itertools.product(STATES, repeat=n))
+        for w in (0, 1, 2):
+            for sens in range(1, n + 1):
+                for seq in itertools.product(vecs, repeat=L):
+                    follow(sens, w, seq, "confirmed-history-exhaustive")
+                ctx.case(("confirmed-histories", n, L, w, sens), True)
+    hrng = __import__("numpy").random.default_rng(ctx.seed + 131)
+    for k in range(300 if ctx.quick else 3000):
+        n = int(hrng.integers(1, 5)); w = int(hrng.choice([0, 1, 2, 3, 5])); sens = int(hrng.integers(1, n + 2))
+        cur, seq = [None] * n, []
+        for t in range(40):
+            for i in range(n):
+                if hrng.random() < 0.25:                      # sticky: a member changes its state only now and then
+                    cur[i] = STATES[int(hrng.integers(0, 3))]
+            seq.append(tuple(cur))
+        follow(sens, w, seq, "confirmed-history-sticky")
+        ctx.case(("confirmed-sticky", k), True)
     # long waiting periods: the rule holds for every wait_time, in particular beyond the range of small integer types
     lrng = __import__("numpy").random.default_rng(ctx.seed + 13)
     for w in ((254, 255, 256, 257, 300) if ctx.quick else (254, 255, 256, 257, 300, 65535, 65536, 66000)):
